@@ -24,6 +24,18 @@ Theorem C18_server_write_timeout : forall K os, srv_ws_timeout K = tr_write_time
 Proof. exact server_write_timeout. Qed.
 Print Assumptions C18_server_write_timeout.
 
+(* Independence: the effective read limit is what it would be if only the read-limit options had been given, the effective
+   write timeout what it would be with the write-timeout options alone - in whatever order and among whatever other options
+   (credentials, logger, buffer sizes) they stand. *)
+Theorem C18_client_options_independent : forall K os,
+  rl (client_eff K os) = rl (client_eff K (filter is_rl_d os)) /\ wt (client_eff K os) = wt (client_eff K (filter is_wt_d os)).
+Proof. exact client_independent. Qed.
+Print Assumptions C18_client_options_independent.
+Theorem C18_server_options_independent : forall K os, srv_read_limit K <> 0 -> srv_ws_timeout K = tr_write_timeout K ->
+  rl (server_eff K os) = rl (server_eff K (filter is_rl_s os)) /\ wt (server_eff K os) = wt (server_eff K (filter is_wt_s os)).
+Proof. exact server_independent. Qed.
+Print Assumptions C18_server_options_independent.
+
 (* the premises hold of the documented constants *)
 Example C18_premises : srv_read_limit documented <> 0 /\ srv_ws_timeout documented = tr_write_timeout documented.
 Proof. split; [discriminate|reflexivity]. Qed.
